@@ -28,9 +28,11 @@ import (
 	"log/slog"
 	"os"
 	"path/filepath"
+	"runtime"
 	"sort"
 	"strings"
 	"sync"
+	"syscall"
 	"time"
 
 	"google.golang.org/protobuf/types/known/timestamppb"
@@ -589,6 +591,12 @@ func execHistory(mode string, c *hx.Case) (*hx.Result, error) {
 	}
 	defer os.RemoveAll(dir)
 	cl := &cluster{dir: dir, kgc: kgc, job: &fakeJob{}, handler: &refHandler{}, adapters: map[string]*opAdapter{}}
+	defer func() {
+		// release the operators of this history and let the finalizers close their files
+		cl.keep, cl.ops, cl.adapters = nil, nil, nil
+		runtime.GC()
+		runtime.GC()
+	}()
 	defer cl.quiesce()
 	defer cl.stopAll()
 	if err := cl.deploy(n0, nil); err != nil {
@@ -959,6 +967,13 @@ func (eng) Execute(mode string, c *hx.Case) (*hx.Result, error) {
 }
 
 func main() {
+	// the DKV keeps table and WAL files open until their objects are collected: raise the descriptor limit and
+	// collect after every history (see execHistory)
+	var lim syscall.Rlimit
+	if syscall.Getrlimit(syscall.RLIMIT_NOFILE, &lim) == nil && lim.Cur < lim.Max {
+		lim.Cur = lim.Max
+		syscall.Setrlimit(syscall.RLIMIT_NOFILE, &lim)
+	}
 	slog.SetDefault(slog.New(slog.NewTextHandler(io.Discard, nil)))
 	_ = strings.TrimSpace
 	hx.Main(eng{})
